@@ -585,3 +585,123 @@ func init() {
 			return out
 		}})
 }
+
+// ERRSTORE — the result of a failed step is not left in the object.
+//
+// `if p.Value[n], err = eval.MulRelinNew(a, b); err != nil { return err }` stores whatever the failed call returned
+// into the power basis before looking at the error: the basis then holds an X^n that later calls take for an already
+// generated power (silently wrong results from then on).
+//
+// Rule: in a method, an assignment that stores the first result of a call into an element of a map rooted at the
+// receiver (where the presence of the key is what later calls test) together with the error of the same call, in the
+// init of an `if` whose body leaves with that error, is accompanied in the same function by a `delete` on the same
+// container or an assignment to the same element inside an error branch / a deferred function. Constructors (functions
+// that return the object they fill) and branches that panic are exempt.
+func scanErrStore(c *core.Ctx) []ob {
+	var out []ob
+	n := 0
+	c.FuncDecls(func(pk *packages.Package, file *ast.File, fd *ast.FuncDecl) {
+		if fd.Body == nil || fd.Recv == nil || fileIsTestSupport(c.Program, fd.Pos()) || inExamples(pk) {
+			return
+		}
+		if len(fd.Recv.List) == 0 || len(fd.Recv.List[0].Names) == 0 {
+			return
+		}
+		info := pk.TypesInfo
+		recv := info.Defs[fd.Recv.List[0].Names[0]]
+		if recv == nil {
+			return
+		}
+		fkey := core.FuncKey(pk, fd)
+		// cleanup sites: delete(container, ...) anywhere, by container text
+		cleaned := map[string]bool{}
+		ast.Inspect(fd.Body, func(x ast.Node) bool {
+			if call, ok := x.(*ast.CallExpr); ok {
+				if id, ok := unparen(call.Fun).(*ast.Ident); ok && id.Name == "delete" && len(call.Args) == 2 {
+					cleaned[exprString(call.Args[0])] = true
+				}
+			}
+			return true
+		})
+		ast.Inspect(fd.Body, func(x ast.Node) bool {
+			is, ok := x.(*ast.IfStmt)
+			if !ok || is.Init == nil {
+				return true
+			}
+			as, ok := is.Init.(*ast.AssignStmt)
+			if !ok || len(as.Lhs) != 2 || len(as.Rhs) != 1 {
+				return true
+			}
+			if _, isCall := unparen(as.Rhs[0]).(*ast.CallExpr); !isCall {
+				return true
+			}
+			if t := info.TypeOf(as.Lhs[1]); t == nil || !isErrorType(t) {
+				return true
+			}
+			lhs := unparen(as.Lhs[0])
+			var container string
+			switch l := lhs.(type) {
+			case *ast.IndexExpr:
+				if r := rootIdent(l.X); r == nil || info.Uses[r] != recv {
+					return true
+				}
+				// a map of the object: presence of the key is what later calls test
+				if _, isMap := info.TypeOf(l.X).Underlying().(*types.Map); !isMap {
+					return true
+				}
+				container = exprString(l.X)
+			default:
+				return true
+			}
+			// the body leaves with an error (not a panic)
+			if !leavesWithError(is.Body) {
+				return true
+			}
+			panics := false
+			for _, st := range is.Body.List {
+				if es, ok := st.(*ast.ExprStmt); ok {
+					if call, ok := es.X.(*ast.CallExpr); ok {
+						if id, ok := unparen(call.Fun).(*ast.Ident); ok && id.Name == "panic" {
+							panics = true
+						}
+					}
+				}
+			}
+			if panics {
+				return true
+			}
+			n++
+			key := fmt.Sprintf("ERRSTORE:%s#%s", fkey, exprString(lhs))
+			// re-assignment of the same element inside the error branch
+			reset := false
+			ast.Inspect(is.Body, func(y ast.Node) bool {
+				if a2, ok := y.(*ast.AssignStmt); ok {
+					for _, l := range a2.Lhs {
+						if exprString(l) == exprString(lhs) {
+							reset = true
+						}
+					}
+				}
+				return true
+			})
+			if cleaned[container] || reset {
+				out = append(out, okOb("ERRSTORE", key, c.Rel(as.Pos()), "the element is removed or reset when the step fails", true))
+			} else {
+				out = append(out, violOb("ERRSTORE", key, c.Rel(as.Pos()), fmt.Sprintf("%s stores the result of a call into %s together with its error and returns the error: what the failed call returned stays in the object and is taken for a valid element by later calls", fkey, exprString(lhs))))
+			}
+			return true
+		})
+	})
+	c.Stats["errstore_sites"] = n
+	return out
+}
+
+func init() {
+	core.Register(&core.Rule{Name: "ERRSTORE", Props: []string{"C13", "C10"},
+		Doc: "a method that stores the result of a call into an element of a receiver-rooted map in the init of `if x, err = f(); err != nil { return err }` removes or resets that element when the step fails (delete on the container in the function, incl. deferred, or reassignment in the error branch)",
+		Run: func(c *core.Ctx) []ob {
+			out := scanErrStore(c)
+			out = append(out, control(c, "ERRSTORE", scanErrStore, "(powCache).Gen")...)
+			return out
+		}})
+}
